@@ -169,7 +169,8 @@ func (r *Recorder) DeliverTx(tx []byte, abs map[string]interface{}) abci.Respons
 	for k, v := range abs {
 		a[k] = v
 	}
-	if _, ok := a["dup"]; !ok {
+	if v, ok := a["dup"]; !ok || (v == "reencoded" && dup != "no") {
+		// identical bytes delivered before win over the caller's "re-encoding" label
 		a["dup"] = dup
 	}
 	// identity of the signed content: the abstract record without the submission class
